@@ -66,10 +66,46 @@ def rand_extra_params(rng, k_max=3, scaled_ok=True):
         t = base if k == 1 else f"{k}{base}"
         kw = {}
         if scaled_ok and rng.random() < 0.3:
-            kw["scales"] = np.array([rng.choice([0.5, 0.01, 2.0]) for _ in range(k)])
+            kw["scales"] = np.array([rng.choice([0.5, 0.01, 2.0, 1.0]) for _ in range(k)])
             kw["offsets"] = np.array([rng.choice([0.0, 10.0, -3.5]) for _ in range(k)])
         params.append(ExtraBytesParams(name=f"ex{i}_{t}", type=t, description=c08.rand_text(rng, rng.randrange(0, 20), "abcdefgh XYZ"), **kw))
     return params
+
+
+_FOREIGN_K = [0]
+
+
+def foreign_extra_dims(rng):
+    """(extra dimensions of a file, extra dimensions of records that are of ANOTHER point format although the point format id is the
+    same, label): the two differ in one extra dimension's scale, offset, name or element type of equal width, or one list is a strict
+    prefix of the other"""
+    from laspy import ExtraBytesParams
+    a = dict(name="height", type="i4", scales=np.array([0.01]), offsets=np.array([100.0]), description="above ground")
+    b = dict(name="quality", type="u2", description="")
+    kinds = ["other_scale", "other_offset", "other_name", "same_width_other_type", "file_has_one_more", "records_have_one_more",
+             "unscaled_vs_scaled"]
+    variant = kinds[_FOREIGN_K[0] % len(kinds)]      # every kind in turn, whatever the seed
+    _FOREIGN_K[0] += 1
+    a2, second = dict(a), True
+    mine, theirs = [a, b], None
+    if variant == "other_scale":
+        a2["scales"] = np.array([0.001])
+    elif variant == "other_offset":
+        a2["offsets"] = np.array([0.0])
+    elif variant == "other_name":
+        a2["name"] = "heigth"
+    elif variant == "same_width_other_type":
+        a2["type"] = "u4"
+    elif variant == "unscaled_vs_scaled":
+        a2.pop("scales")
+        a2.pop("offsets")
+    elif variant == "file_has_one_more":
+        theirs = [a]
+    else:
+        theirs = [a, b, dict(name="extra", type="u1", description="")]
+    if theirs is None:
+        theirs = [a2, b]
+    return [ExtraBytesParams(**d) for d in mine], [ExtraBytesParams(**d) for d in theirs], variant
 
 
 SPECIAL_F8 = [0x7FF8000000000001, 0xFFF800000000BEEF, 0x7FF0000000000000, 0xFFF0000000000000, 0x8000000000000000, 0x7FF0000000000001]
